@@ -94,6 +94,10 @@ func (g *gen) representativeOps(dense bool) []string {
 	for _, n := range []int{0, 1, 9} {
 		add("codabar %s", hx(string(g.pick("ABCD"))+g.str(codabarChars[:16], n)+string(g.pick("ABCD"))))
 	}
+	// the public constructors of utils/base1dcode.go on caller-made bars (with and without a check value)
+	add("raw1d %s %s %s -", hx("Custom"), hx("free text"), g.randBits(1+g.intn(40)))
+	add("raw1d %s %s %s %d", hx("Custom CS"), hx("\x00\xff"), g.randBits(1+g.intn(40)), g.intn(1000)-300)
+	add("raw1d - - 1 0")
 	for _, n := range []int{1, 2, 6, 20} {
 		add("tof %s 0", hx(g.str(digits, n)))
 		add("tof %s 1", hx(g.str(digits, 2*n)))
